@@ -116,13 +116,22 @@ class DictReal:
 
 
 class LieselReal:
-    def __init__(self, spec, order=None, order_seed=0):
+    def __init__(self, spec, order=None, order_seed=0, iface="liesel", auto_at_creation=True):
         self.real = c01.Real(spec, order, order_seed)
         r = self.real
+        # the user's model may have auto_update switched off when the interface is created (the private copy
+        # inherits the flag); the interface is gs.LieselInterface or the deprecated, still exported lsl.GooseModel
+        r.model.auto_update = bool(auto_at_creation)
         self.spec, self.order, self.pos, self.kinds, self.ins, self.fs = spec, r.order, r.pos, r.kinds, r.ins, r.fs
         self.var_of = r.var_of
         self.state0 = r.model.state
-        self.iface = lib()["gs"].LieselInterface(r.model)
+        if iface == "goose":
+            import warnings
+            with warnings.catch_warnings():
+                warnings.simplefilter("ignore")
+                self.iface = r.lsl.GooseModel(r.model)
+        else:
+            self.iface = lib()["gs"].LieselInterface(r.model)
 
     def observe_state(self, ms):
         """node.value of every node when the model holds ms (public API: model.state setter, node.value),
@@ -140,7 +149,7 @@ class LieselReal:
 def make_real(c):
     if c["model"] == "dict":
         return DictReal(c["spec"])
-    return LieselReal(c["spec"], c.get("order"), c.get("order_seed", 0))
+    return LieselReal(c["spec"], c.get("order"), c.get("order_seed", 0), c.get("iface", "liesel"), c.get("auto_at_creation", True))
 
 
 def key_name(R, kd):
@@ -376,7 +385,10 @@ def gen_iters(rnd, kernels, scenario, quick):
     return its
 
 
-def make_d_case(rnd, quick, scenario, flavour, trace=False):
+IFACES = [("liesel", True), ("goose", False), ("liesel", False), ("goose", True)]
+
+
+def make_d_case(rnd, quick, scenario, flavour, trace=False, iface=("liesel", True)):
     for _try in range(200):
         if scenario == "dict":
             nv = rnd.randint(2, 6)
@@ -387,7 +399,7 @@ def make_d_case(rnd, quick, scenario, flavour, trace=False):
             nitems = rnd.randint(3, 7) if quick else rnd.choice([rnd.randint(3, 8), rnd.randint(6, 14)])
             spec = c01.gen_spec(rnd, nitems, flavour)
             c = {"layer": "D", "model": "liesel", "spec": spec, "order_seed": rnd.randrange(2 ** 30),
-                 "scenario": scenario, "flavour": flavour}
+                 "scenario": scenario, "flavour": flavour, "iface": iface[0], "auto_at_creation": iface[1]}
         try:
             R = make_real(c)
         except c01.GraphAnomaly:
@@ -467,6 +479,7 @@ CORPUS_D = [
                {"modes": ["accept", "accept"], "codes": [90, 0], "epoch": 1}]},
     # strong Var with a distribution whose parameter is another Var: keys by var name; three kernels
     {"layer": "D", "model": "liesel", "scenario": "corpus", "flavour": "corpus", "order_seed": 1,
+     "iface": "goose", "auto_at_creation": False,
      "spec": {"items": [{"k": "var", "weak": False, "role": "par", "v": 3},
                         {"k": "var", "weak": False, "role": "par", "v": 4,
                          "dist": {"ins": [0], "kw": [], "kwn": [], "fs": ["aff", 4, [3, 5]], "transient": False}},
@@ -671,7 +684,8 @@ def generate(ctx):
     while len(cases) < nd:
         sc = D_SCENARIOS[i % len(D_SCENARIOS)]
         fl = flavours[(i // len(D_SCENARIOS)) % len(flavours)]
-        cases.append(make_d_case(rnd, ctx.quick, sc, fl, trace=(i % 8 == 3)))
+        # interface class x auto_update of the user's model at creation: rotated with a period coprime to the scenarios
+        cases.append(make_d_case(rnd, ctx.quick, sc, fl, trace=(i % 8 == 3), iface=IFACES[(i + i // len(D_SCENARIOS)) % 4]))
         i += 1
     # forced stratum: the kernel order configured through EngineBuilder.add_kernel (identifiers user-assigned and
     # unsorted / partly default / default / re-used objects), run by the real jitted Engine
@@ -682,6 +696,8 @@ def generate(ctx):
     from . import c09_float
     fcases = c09_float.generate(ctx, rnd)
     cases += fcases
+    from . import c09_tau2
+    cases += c09_tau2.generate(ctx)
     ntrans = 0
     distinct = set()
     for c in cases:
@@ -689,6 +705,8 @@ def generate(ctx):
             ctx.hist("D.scenario." + c["scenario"])
             ctx.hist("D.model." + c["model"])
             ctx.hist("D.control_flow." + ("traced" if c.get("trace") else "eager"))
+            if c["model"] == "liesel":
+                ctx.hist(f"D.interface.{c.get('iface', 'liesel')}.auto_update_at_creation_{c.get('auto_at_creation', True)}")
             n = len(c["kinds"])
             ctx.hist("D.nodes." + ("<=8" if n <= 8 else "9-13" if n <= 13 else "14-24" if n <= 24 else ">=25"))
             ctx.hist("D.kernels.%d" % len(c["kernels"]))
@@ -703,6 +721,17 @@ def generate(ctx):
                     ctx.hist(f"D.transition.{kern['kind']}." + ("moved" if st["moved"] else "rejected")
                              + (".natural" if kern["kind"] == "mh" and mode == "natural" else ""))
             distinct.add(json.dumps([c["kinds"], c["ins"], c["kernels"], c["iters"]]))
+        elif c.get("family") == "pspline":
+            ntrans += len(c.get("fsteps", []))
+            distinct.add(json.dumps(c["cfg"], sort_keys=True))
+            if c.get("anomaly"):
+                ctx.hist("F.pspline.config.raises")
+            else:
+                ctx.hist("F.pspline.configs")
+                ctx.hist(f"F.interface.{c['cfg'].get('iface', 'liesel')}.auto_update_at_creation_{c['cfg'].get('auto_at_creation', True)}")
+                ctx.hist("F.pspline.tau2_digests", c.get("tau2_digests", 0))
+                for s_ in c["fsteps"]:
+                    ctx.hist("F.transition." + c["fkernels"][s_["kernel"]]["kind"] + (".moved" if s_["moved"] else ".rejected"))
         else:
             c09_float.histogram(ctx, c)
             ntrans += len(c.get("fsteps", []))
@@ -762,7 +791,7 @@ def search(ctx, disagreeing):
         if c["layer"] != "D":
             continue
         for _ in range(25):
-            cc = {k: c[k] for k in ("layer", "model", "spec", "scenario", "flavour", "order", "trace") if k in c}
+            cc = {k: c[k] for k in ("layer", "model", "spec", "scenario", "flavour", "order", "trace", "iface", "auto_at_creation") if k in c}
             cc["order_seed"] = c.get("order_seed", 0)
             R = make_real(cc)
             cc["kernels"] = gen_kernels(rnd, R, "shared_reads")
@@ -799,11 +828,18 @@ def replay(rp) -> int:
             print("replay file names no concrete input (broken lemma only):", body.get("broken"))
             return 0
         c = ds[0]
+    if c["layer"] == "F" and c.get("family") == "pspline":
+        from . import c09_tau2, c09_float
+        cc = c09_tau2.run_config(c["cfg"])
+        print("configuration:", json.dumps(c["cfg"]))
+        r = c09_float.oracle(cc)
+        print("REPLAY FAILS: " + r if r else "replay passes on the current tree")
+        return 1 if r else 0
     if c["layer"] == "F":
         from . import c09_float
         return c09_float.replay(c)
     cc = {k: c[k] for k in ("layer", "model", "spec", "scenario", "flavour", "order", "order_seed", "kernels", "iters", "seed", "trace",
-                                  "via", "idents", "T", "chains", "first_order") if k in c}
+                                  "via", "idents", "T", "chains", "first_order", "iface", "auto_at_creation") if k in c}
     try:
         cc = run_d_case(cc)
     except Exception as ex:
